@@ -153,9 +153,26 @@ package server
 // ghost.src[m]: the NATS message from which the log message m was built
 //@ ghost var src ghostmap[*commitlog.Message]*nats.Msg
 
+// A payload on the stream's subject is EITHER an envelope that decodes - then exactly the decoded fields are stored -
+// OR an opaque value stored verbatim with nothing else taken from it (no key, no ack inbox, no correlation id, default
+// ack policy). A payload whose decoding fails half-way is opaque (C14)
+//@ ghost var publishDecoded bool
+//@ ghost var publishMsg *client.Message
+//@ ghost var envelopeOf *client.Message
+//@ func getMessage serves C14
+//@   ghost at entry: ghost.publishDecoded := false
+//@   ghost after call UnmarshalPublish: ghost.publishDecoded := ret1 == nil && arrOf(arg0) == arrOf(data) && offOf(arg0) == offOf(data) && len(arg0) == len(data)
+//@   ghost after call UnmarshalPublish: ghost.publishMsg := ret0
+//@   ensures [an-envelope-only-if-it-decodes] (result != nil) == ghost.publishDecoded
+//@   ensures [the-decoded-envelope] result != nil ==> result == ghost.publishMsg
 //@ func natsToProtoMessage serves C04, C17, C14
+//@   assumes msg != nil
 //@   ensures result != nil && fresh(result)
 //@   ensures [others-untouched] forall x *commitlog.Message :: x != result ==> x.Value == old(x.Value)
+//@   call getMessage requires [the-payload-as-received] arrOf(arg0) == arrOf(msg.Data) && offOf(arg0) == offOf(msg.Data) && len(arg0) == len(msg.Data)
+//@   ghost after call getMessage: ghost.envelopeOf := ret0
+//@   ensures [C14:opaque-payload-stored-verbatim] ghost.envelopeOf == nil ==> arrOf(result.Value) == arrOf(msg.Data) && offOf(result.Value) == offOf(msg.Data) && len(result.Value) == len(msg.Data) && isnil(result.Key) && result.AckInbox == "" && result.CorrelationID == "" && result.AckPolicy == 0
+//@   ensures [C14:envelope-stored-as-decoded] ghost.envelopeOf != nil ==> arrOf(result.Value) == arrOf(ghost.envelopeOf.Value) && offOf(result.Value) == offOf(ghost.envelopeOf.Value) && len(result.Value) == len(ghost.envelopeOf.Value) && arrOf(result.Key) == arrOf(ghost.envelopeOf.Key) && len(result.Key) == len(ghost.envelopeOf.Key) && result.AckInbox == ghost.envelopeOf.AckInbox && result.CorrelationID == ghost.envelopeOf.CorrelationId && result.AckPolicy == ghost.envelopeOf.AckPolicy && result.Offset == ghost.envelopeOf.Offset
 
 // storable(m): m passed the gates in front of the log: with an encryption handler its value is a Seal output
 //@ func (*partition).messageProcessingLoop serves C04, C17, C16
